@@ -507,3 +507,13 @@ const decoSuffix = "+deco"
 func IsDeco(name string) bool     { return strings.HasSuffix(name, decoSuffix) }
 func DecoOf(name string) string   { return name + decoSuffix }
 func DecoBase(name string) string { return strings.TrimSuffix(name, decoSuffix) }
+
+// ProcByID returns the user post-processor with that id (nil if there is none).
+func (p *Program) ProcByID(id string) *Proc {
+	for _, pr := range p.Procs {
+		if pr.ID == id {
+			return pr
+		}
+	}
+	return nil
+}
